@@ -710,6 +710,146 @@ var pooledTypes = []typeSpec{
 	}},
 }
 
+// constZeroCandidates: fields the model classifies ConstZero (allocated once, then only
+// read).  For each the translator lists EVERY access in the package, so that a new
+// write - or handing the buffer to another callee - changes the regenerated list.
+var constZeroCandidates = []struct{ alias, typ, field string }{
+	{"lossy", "VP8Encoder", "yuvP"},
+}
+
+// fieldAccesses lists (function, kind) for every selector expression x.<field> whose
+// x has type T or *T, in all functions of the package.  Kinds:
+//
+//	set            x.f = e            (also x.f, y = …)
+//	elem-write     x.f[i] = e, x.f[i]++, x.f[i] op= e
+//	clear          clear(x.f)
+//	copy-dst       copy(x.f…, src)
+//	addr           &x.f, &x.f[i]
+//	arg:F#k        x.f (or a re-slice of it) passed as k-th argument (0-based) of F
+//	len            len(x.f) / cap(x.f)
+//	read           anything else
+func fieldAccesses(p *pkgInfo, typ, field string) (out [][2]string, found bool) {
+	isT := func(e ast.Expr) bool {
+		tv, ok := p.info.Types[e]
+		if !ok || tv.Type == nil {
+			return false
+		}
+		t := tv.Type
+		if pt, ok := t.(*types.Pointer); ok {
+			t = pt.Elem()
+		}
+		n, ok := t.(*types.Named)
+		return ok && n.Obj().Name() == typ
+	}
+	seen := map[[2]string]bool{}
+	for _, f := range p.files {
+		for _, d := range f.Decls {
+			fd, ok := d.(*ast.FuncDecl)
+			if !ok || fd.Body == nil {
+				continue
+			}
+			var stack []ast.Node
+			ast.Inspect(fd.Body, func(n ast.Node) bool {
+				if n == nil {
+					stack = stack[:len(stack)-1]
+					return true
+				}
+				stack = append(stack, n)
+				sel, ok := n.(*ast.SelectorExpr)
+				if !ok || sel.Sel.Name != field || !isT(sel.X) {
+					return true
+				}
+				found = true
+				kind := classifyAccess(stack)
+				k := [2]string{fd.Name.Name, kind}
+				if !seen[k] {
+					seen[k] = true
+					out = append(out, k)
+				}
+				return true
+			})
+		}
+	}
+	sort.Slice(out, func(i, j int) bool {
+		if out[i][0] != out[j][0] {
+			return out[i][0] < out[j][0]
+		}
+		return out[i][1] < out[j][1]
+	})
+	return
+}
+
+// classifyAccess looks at the ancestors of the selector (last element of stack).
+func classifyAccess(stack []ast.Node) string {
+	cur := ast.Node(stack[len(stack)-1])
+	indexed := false
+	for i := len(stack) - 2; i >= 0; i-- {
+		switch par := stack[i].(type) {
+		case *ast.ParenExpr:
+			cur = par
+			continue
+		case *ast.SliceExpr:
+			if par.X == cur {
+				cur = par
+				continue
+			}
+			return "read"
+		case *ast.IndexExpr:
+			if par.X == cur {
+				cur = par
+				indexed = true
+				continue
+			}
+			return "read"
+		case *ast.UnaryExpr:
+			if par.Op == token.AND {
+				return "addr"
+			}
+			return "read"
+		case *ast.AssignStmt:
+			for _, l := range par.Lhs {
+				if l == cur {
+					if indexed {
+						return "elem-write"
+					}
+					return "set"
+				}
+			}
+			return "read"
+		case *ast.IncDecStmt:
+			if par.X == cur {
+				return "elem-write"
+			}
+			return "read"
+		case *ast.CallExpr:
+			for k, a := range par.Args {
+				if a != cur {
+					continue
+				}
+				if indexed {
+					return "read" // an element value is passed, not the buffer
+				}
+				name := calleeName(par)
+				switch {
+				case name == "clear":
+					return "clear"
+				case name == "copy" && k == 0:
+					return "copy-dst"
+				case name == "copy":
+					return "read"
+				case name == "len" || name == "cap":
+					return "len"
+				}
+				return fmt.Sprintf("arg:%s#%d", name, k)
+			}
+			return "read"
+		default:
+			return "read"
+		}
+	}
+	return "read"
+}
+
 // expected sync.Pool declarations that must still exist (refuse when one disappears;
 // new ones are reported through sync_pools and break pools_all_modelled in Coq).
 var expectedPools = []string{
@@ -959,6 +1099,25 @@ func genFields() (string, string) {
 			}
 		}
 		b.WriteString("\n")
+	}
+
+	// package-wide access lists of fields classified ConstZero by the model
+	for _, cz := range constZeroCandidates {
+		p, err := load(cz.alias, aliasDir[cz.alias])
+		if err != nil {
+			refuse("fields: cannot load %s: %v", cz.alias, err)
+			continue
+		}
+		acc, found := fieldAccesses(p, cz.typ, cz.field)
+		if !found {
+			refuse("fields: no access to %s.%s.%s found in the package (field renamed or removed?)", cz.alias, cz.typ, cz.field)
+		}
+		q := make([]string, len(acc))
+		for i, a := range acc {
+			q[i] = fmt.Sprintf(`("%s", "%s")`, a[0], a[1])
+		}
+		fmt.Fprintf(&b, "(* every access to %s.%s.%s in the non-test sources of the package: (function, kind) *)\nDefinition %s_%s_%s_accesses : list (string * string) :=\n  %s.\n\n",
+			cz.alias, cz.typ, cz.field, cz.alias, cz.typ, cz.field, wrap("["+strings.Join(q, "; ")+"]"))
 	}
 
 	pools := syncPools()
